@@ -148,7 +148,7 @@ class OutOfFuel(Exception):
 
 
 PASS = ("Borrow", "Deref", "Coerce", "Use", "Scope", "NeverToAny", "ByUse", "RawBorrow", "Binder")
-IDENTITY_CALLS = {"clone", "borrow", "as_ref", "deref", "as_deref", "to_owned", "by_ref", "as_mut", "deref_mut", "borrow_mut", "copied", "cloned", "as_slice", "as_mut_slice", "peekable", "fuse"}
+IDENTITY_CALLS = {"clone", "borrow", "as_ref", "deref", "as_deref", "to_owned", "by_ref", "as_mut", "deref_mut", "borrow_mut", "copied", "cloned", "as_slice", "as_mut_slice", "peekable", "fuse", "as_str", "as_bytes_mut", "as_mut_str", "to_string", "to_vec"}
 ITER_CALLS = {"iter", "into_iter", "iter_mut", "drain"}
 
 
